@@ -63,7 +63,7 @@ HTTP_NOTE = (' TIE-H: the same generated histories are also issued as v2 HTTP re
              'equal the model\'s (results projected on what an HTTP answer shows: transaction id, hit flag, status:errorCode). Monitors without model: the API reads equal the controller '
              'reads after every operation; every page honours the requested page size; the transaction a write answers with equals the one listed right after, and its '
              'preCommitVolumes are post-commit minus own postings.')
-for _pid, _extra in [('C02', None), ('C03', None), ('C13', ['-profile', 'ik', '-scripts', '30']), ('C15', None), ('C17', ['-scripts', '30']), ('C25', ['-profile', 'postings'])]:
+for _pid, _extra in [('C02', None), ('C03', None), ('C13', ['-profile', 'ik', '-scripts', '30']), ('C15', None), ('C17', ['-scripts', '30', '-oddkeys', '1']), ('C25', ['-profile', 'postings'])]:
     PROPS[_pid]['ties'].append(http_tie(_pid, extra=_extra))
     PROPS[_pid]['explanation'] += HTTP_NOTE
 
